@@ -255,6 +255,48 @@ def sampled_case(expr, method, n, k, orient=None, side=None, link_only=False, de
                 check_obligations=not _poly_operand(expr), **opts)
 
 
+def optional_parameter_case(kind, n=1, k=2):
+    """shape functions whose ONLY argument has a declared default (def radius(t=1.0)): no variable is necessary, yet a t
+    supplied through `params` is honoured by the samplers and by _contains -- and has to be by normal()"""
+    cname = "normal/%s[r(t=default)]/random/n%d/k%d" % (kind, n, k)
+
+    def body(env):
+        L = env.L
+        r0, r1 = env.tensor("R0", ()), env.tensor("R1", ())
+        c = env.tensor("Cc", (3 if kind == "Sphere" else 2,))
+        e0, e1, ec = SH.elems(env, r0)[0], SH.elems(env, r1)[0], SH.elems(env, c)
+
+        def radius(t=1.0):
+            return r0 + r1 * t
+
+        X = tp.spaces.R3("x") if kind == "Sphere" else tp.spaces.R2("x")
+        dom = (tp.domains.Sphere if kind == "Sphere" else tp.domains.Circle)(X, c, radius)
+        oset = O.OBall(lambda prm: list(ec), lambda prm: [e0 + e1 * prm["t"][0]], len(ec))
+        P, rows = SH.params(env, [("t", 1)], k)
+        for prm in rows:
+            env.assume(L.gt(e0 + e1 * prm["t"][0], 0))
+        env.assume(L.gt(e0 + e1, 0))
+        bd = dom.boundary
+        pts = bd.sample_random_uniform(n=n, params=P)
+        nrm = bd.normal(pts, P)
+        return dict(pts=pts.as_tensor, nrm=nrm, oset=oset, rows=rows, nv=set(dom.necessary_variables))
+
+    def goals(o, L, env):
+        yield "no_necessary_variable", o["nv"] == set()
+        pts, nrm = o["pts"], _as_rows(o["nrm"])
+        yield "one_normal_per_point", len(nrm) == len(pts) == n * k
+        if len(nrm) != len(pts):
+            return
+        d = len(nrm[0])
+        for i, (p, nu) in enumerate(zip(pts, nrm)):
+            prm = o["rows"][min(i // n, k - 1)]
+            yield "unit[row%d]" % i, N.unit(nu, L, _tol(L))
+            for cn, f in N.claims(o["oset"], list(p[:d]), nu, prm, L, TAU, _tol(L)):
+                yield "outward:%s[row%d]" % (cn, i), f
+
+    return Case(cname, body, goals, family="normal/optional_parameter", params=dict(kind=kind, n=n, k=k), max_paths=32)
+
+
 # ---- generic boundary point of a piece -> real normal -------------------------------------------
 
 
@@ -499,6 +541,9 @@ def cases(tier):
         cs.append(sampled_case(C, "random", n, 0))
     for n in (1, 3):
         cs.append(sampled_case(C, "grid", n, 0))
+    cs.append(optional_parameter_case("Circle"))
+    if not quick:
+        cs.append(optional_parameter_case("Sphere"))
     # polygons: generic point of every edge (interior, corner zones, corners), both orientations
     for e, orients in ((PG, ("pos", "neg")), (TR, ("ccw",))):  # Triangle documents counter-clockwise corners as a precondition
         for orient in orients:
